@@ -222,10 +222,13 @@ class Ctx:
             return False
         return True
 
-    def audit(self, module, extra_modules=()):
-        """Every theorem of `module` must exist and depend only on allowed axioms;
-        forbidden tokens must not occur in the module closure."""
+    def audit(self, module, also=()):
+        """Every theorem of `module` (and of the generated modules in `also`) must
+        exist and depend only on allowed axioms; forbidden tokens must not occur in
+        the module closure."""
         names = theorem_names(module)
+        for m in also:
+            names += theorem_names(m)
         res, out = print_axioms(module, names)
         ok = True
         for n in names:
